@@ -122,7 +122,9 @@ def compare(ctx, case, out2, real_info, real_err):
 
 
 def fixed_cases():
-    """hand-picked: the two-point example of theorem code_info_can_be_negative, flat and nearly flat runs (negative
+    """hand-picked: the two-point example of theorem info_without_first_point_can_be_negative, flat and nearly flat runs (where
+    a recursion that drops the first point's information goes negative: the defect repaired as F55; with the repair the
+    information is >= 0, theorem code_info_nonneg) — formerly (negative
     information -> NaN error), a steep run, leading -inf, varying nlive"""
     out = []
     out.append(dict(kind="varying", mode="t", family="flat2", n=1, L=[[1, 0], [1, 0]], offset=0.0, ns=[1, 1],
